@@ -59,8 +59,12 @@ OPS = [
 ]
 
 
+EMPTY = ("<empty response>",)
+
+
 class ScriptedAgent:
-    """f(requested_oid, repetition_index) -> oid tuple | None (endOfMibView)."""
+    """f(requested_oid, repetition_index) -> oid tuple | None (endOfMibView) | EMPTY
+    (the whole response carries no bindings at all)."""
 
     def __init__(self, f):
         self.f = f
@@ -76,10 +80,16 @@ class ScriptedAgent:
         req = [tuple(o) for o, _ in pdu["varbinds"]]
         self.requested_log.append(req)
         out = []
+        # the whole response is empty when the function says so for any requested OID
+        reps = max(pdu["error_index"], 0) if pdu["type"] == ber.PDU_GETBULK else 1
+        if any(self.f(o, r) == EMPTY for o in req for r in range(min(reps, 1) or 1)):
+            self.empty_responses = getattr(self, "empty_responses", 0) + 1
+            self.trace.append((pdu["type"], tuple(req), ()))
+            return ber.enc_community_message(1, msg["community"], {"type": ber.PDU_RESPONSE, "request_id": pdu["request_id"], "error_status": 0, "error_index": 0, "varbinds": []})
         if pdu["type"] == ber.PDU_GETNEXT:
             for oid in req:
                 nxt = self.f(oid, 0)
-                if nxt is None:
+                if nxt is None or nxt == EMPTY:
                     out.append((oid, ("eomv", None)))
                 else:
                     out.append((nxt, ("int", 1)))
@@ -94,7 +104,7 @@ class ScriptedAgent:
                     # again after an endOfMibView in the same column (e.g. an agent
                     # that wraps around to the start of its MIB)
                     nxt = self.f(cur[j], rep)
-                    if nxt is None:
+                    if nxt is None or nxt == EMPTY:
                         out.append((cur[j], ("eomv", None)))
                     else:
                         out.append((nxt, ("int", 1)))
@@ -135,9 +145,19 @@ def chain_oracle(f, root):
     return ys, "endless"
 
 
-def run_op(R, fdesc, f, op, mode, bulk, roots=(ROOT,)):
+def run_op(R, fdesc, f, op, mode, bulk, roots=(ROOT,), state=None):
+    """state: [client, seam] of an earlier run_op - the SAME client runs the operation
+    again against a fresh agent following the same function."""
     agent = ScriptedAgent(f)
-    seam = Seam(agent.handle)
+    if state:
+        client, seam = state
+        seam.reset()
+        R.mon["ops_repeated_on_the_same_client"] += 1
+    else:
+        seam = Seam(agent.handle)
+        client = Client("192.0.2.1", V2C("public"), sender=seam)
+        if state is not None:
+            state[:] = [client, seam]
 
     def budgeted(data):
         # request budget: distinct OIDs revealed so far + roots + 2
@@ -146,7 +166,6 @@ def run_op(R, fdesc, f, op, mode, bulk, roots=(ROOT,)):
         return agent.handle(data)
 
     seam.responder = budgeted
-    client = Client("192.0.2.1", V2C("public"), sender=seam)
     root = roots[0]
     try:
         if op == "walk":
@@ -191,6 +210,12 @@ def run_op(R, fdesc, f, op, mode, bulk, roots=(ROOT,)):
     rereq = sorted({o for o in flat if flat.count(o) > 1})
     if rereq:
         R.violation(case, "OIDs requested in more than one request: %r" % (rereq[:4],), mech)
+        return
+    if getattr(agent, "empty_responses", 0):
+        # a response without any binding: a GETNEXT-based operation refuses it (count
+        # mismatch), a bulk operation may take it for a truncated answer; what matters
+        # here is that the operation ENDED and never re-requested (checked above)
+        R.mon["empty_response_cases"] += 1
         return
     faulty_exc = res[0] == "exc" and isinstance(res[1], FaultySNMPImplementation)
     if agent.first_rep_fault:
@@ -285,6 +310,11 @@ def named_families():
     good = {chain[i]: chain[i + 1] for i in range(len(chain) - 1)}
     good[chain[-1]] = AFTER
     fams.append(("good-then-out", good))
+    # a response with no bindings at all at every point of a good chain
+    for cut in range(len(chain)):
+        m = {chain[i]: chain[i + 1] for i in range(cut)}
+        m[chain[cut]] = EMPTY
+        fams.append(("empty-response-at-%d" % cut, m))
     return fams
 
 
@@ -359,7 +389,10 @@ def run(R):
         if R.shard == 0:
             fdesc = {"kind": "named", "name": name, "map": [[list(k), list(v) if v else None] for k, v in mapping.items()]}
             for op, mode, bulk in OPS:
-                run_op(R, fdesc, table_f(mapping), op, mode, bulk)
+                # twice on the same client: the second run must end the same way
+                state = []
+                run_op(R, fdesc, table_f(mapping), op, mode, bulk, state=state)
+                run_op(R, dict(fdesc, second_run=True), table_f(mapping), op, mode, bulk, state=state)
             R.mon["named_families"] += 1
     for name, f in repdep_families():
         if R.shard == 0:
@@ -400,7 +433,10 @@ def replay(R, v):
     fd = c["f"]
     if fd["kind"] in ("table", "named"):
         mapping = {tuple(k): (tuple(val) if val else None) for k, val in fd["map"]}
-        run_op(R, fd, table_f(mapping), c["op"], c["mode"], c["bulk"], roots=tuple(tuple(r) for r in c["roots"]))
+        state = []
+        if fd.get("second_run"):
+            run_op(R, fd, table_f(mapping), c["op"], c["mode"], c["bulk"], roots=tuple(tuple(r) for r in c["roots"]), state=state)
+        run_op(R, fd, table_f(mapping), c["op"], c["mode"], c["bulk"], roots=tuple(tuple(r) for r in c["roots"]), state=state)
     elif fd["kind"] == "named-repdep":
         f = dict(repdep_families())[fd["name"]]
         run_op(R, fd, f, c["op"], c["mode"], c["bulk"], roots=tuple(tuple(r) for r in c["roots"]))
